@@ -290,7 +290,8 @@ Obs observe(TasmanianSparseGrid const &g, ObsOpts const &o){
             std::vector<double> y; g.evaluateBatch(x, y);
             r.addn("eval", y);
             std::vector<double> jac, alljac;
-            for(int i=0; i<nx; i++){
+            bool has_derivatives = !g.isSetConformalTransformASIN(); // documented: derivatives are not available under conformal maps
+            for(int i=0; i<nx && has_derivatives; i++){
                 std::vector<double> xi(x.begin() + (size_t) i * (size_t) d, x.begin() + (size_t)(i + 1) * (size_t) d);
                 g.differentiate(xi, jac); alljac.insert(alljac.end(), jac.begin(), jac.end());
             }
@@ -301,7 +302,7 @@ Obs observe(TasmanianSparseGrid const &g, ObsOpts const &o){
             for(int i=0; i<nx; i++){
                 std::vector<double> xi(x.begin() + (size_t) i * (size_t) d, x.begin() + (size_t)(i + 1) * (size_t) d);
                 auto w = g.getInterpolationWeights(xi); iw.insert(iw.end(), w.begin(), w.end());
-                if (i < 2){ auto w2 = g.getDifferentiationWeights(xi); dw.insert(dw.end(), w2.begin(), w2.end()); }
+                if (i < 2 && !g.isSetConformalTransformASIN()){ auto w2 = g.getDifferentiationWeights(xi); dw.insert(dw.end(), w2.begin(), w2.end()); }
             }
             r.addn("iweights", iw); r.addn("dweights", dw);
             r.addn("hbasis", g.evaluateHierarchicalFunctions(x));
@@ -342,6 +343,16 @@ std::string obs_diff(Obs const &a, Obs const &b, double rel_tol, std::set<std::s
         }
     }
     return "";
+}
+
+std::string obs_diff_state(Obs const &a, Obs const &b){
+    static const std::set<std::string> numeric = {"qweights", "integrate", "basis_integrals"};
+    std::string d = obs_diff(a, b, 0.0, numeric);
+    if (!d.empty()) return d;
+    Obs a2, b2;
+    for(auto const &p : a.num) if (numeric.count(p.first)) a2.num.push_back(p);
+    for(auto const &p : b.num) if (numeric.count(p.first)) b2.num.push_back(p);
+    return obs_diff(a2, b2, 1e-10);
 }
 
 std::string obs_serialize(Obs const &o){
